@@ -390,7 +390,7 @@ class Interp:
         if isinstance(v, PyList):
             return len(v.items) > 0
         if isinstance(v, PyDict):
-            return len(v.d) > 0
+            return len(v.d) + len(v.sym) > 0
         if isinstance(v, PySet):
             return len(v.items) > 0
         if isinstance(v, SymSeq):
@@ -451,6 +451,14 @@ class Interp:
         cur = self.eval(load, fr)
         rhs = self.eval(st.value, fr)
         if isinstance(cur, PyList) and isinstance(st.op, ast.Add):
+            if isinstance(rhs, SymSeq) and rhs.concrete_len() is None:
+                # list += symbolic-length list: the local is re-bound to the concatenation (sound only for a list
+                # that is not aliased; restricted to plain local names)
+                if not isinstance(st.target, ast.Name):
+                    raise EngineLimit("+= of a symbolic-length list into a possibly aliased list")
+                from .values import seq_concat
+                self.assign(st.target, seq_concat(list(cur.items), rhs), fr)
+                return
             # list += iterable : in place
             cur.items.extend(self.iter_concrete(rhs))
             return
@@ -578,7 +586,7 @@ class Interp:
         if isinstance(it, PyList):
             return list(it.items)
         if isinstance(it, PyDict):
-            return list(it.d.keys())
+            return list(it.d.keys()) + [e[0] for e in it.sym]
         if isinstance(it, PySet):
             return list(it.items)
         if isinstance(it, SymSeq):
